@@ -19,7 +19,7 @@ ASSUMPTIONS = ["statistical verdicts are 'not rejected at alpha=1e-9 per test' (
                "a product-only sampler reaches 36 of the 720 classes"]
 REQUIRED_SUBS = ["valid.random_clifford_map", "valid.random_pauli_map", "valid.random_clifford_state", "valid.random_pauli_state",
                  "valid.rcc.*", "uniform.n1", "uniform.n2.classes", "uniform.n2.signs", "uniform.n2.coverage", "entangle.n3",
-                 "paulimap.n2", "signs.fair", "resample", "uniform.rows.n3", "uniform.rows.n4"]
+                 "paulimap.n2", "signs.fair", "resample", "uniform.rows.n3", "uniform.rows.n4", "coin.fair", "coin.positions"]
 
 
 def shards(tier):
@@ -31,6 +31,8 @@ def shards(tier):
         {"name": "uniform.np.jit", "mode": "jit", "backend": "np", "fn": "uniform", "n2": 120000 if q else 1000000, "n1": 20000, "n3": 4000 if q else 40000},
         {"name": "uniform.np.interp", "mode": "interp", "backend": "np", "fn": "uniform", "n2": 30000 if q else 300000, "n1": 6000, "n3": 1500 if q else 10000},
         {"name": "uniform.torch", "mode": "jit", "backend": "torch", "fn": "uniform", "n2": 25000 if q else 250000, "n1": 5000, "n3": 1200 if q else 10000},
+        {"name": "coins.np.jit", "mode": "jit", "backend": "np", "fn": "coins", "R": 40 if q else 60},
+        {"name": "coins.np.interp", "mode": "interp", "backend": "np", "fn": "coins", "R": 40},
     ]
     if not q:
         out.append({"name": "uniform.np.jit.1", "mode": "jit", "backend": "np", "fn": "uniform", "n2": 1000000, "n1": 50000, "n3": 40000})
@@ -48,8 +50,11 @@ def _show(g, p):
 def run_valid(shard, rec, B):
     st, C = B.stabilizer, B.circuit
     rng = gen.rng_for(rec)
+    wide = [16, 33, 64, 65, 70] if B.name == "np" else [16, 33]
     for t in range(shard["n"]):
         N = 1 + t % 10 if B.name == "np" else 1 + t % 6
+        if t % 12 == 11:
+            N = wide[(t // 12) % len(wide)]
         for name in ("random_clifford_map", "random_pauli_map"):
             ok, M = rec.attempt("valid." + name, N, lambda: getattr(st, name)(N))
             if ok:
@@ -230,3 +235,53 @@ def _normal_tail(n, k, p=0.5):
     from math import erfc, sqrt
     z = abs(k - n * p) / sqrt(n * p * (1 - p))
     return erfc(z / sqrt(2))
+
+
+def run_coins(shard, rec, B):
+    """measurement coins: aggregate fairness (exact binomial) and, for calls with MANY undetermined observables, fairness of
+    every position of the call (a position that never changes over R repetitions has probability 2^(1-R))."""
+    rng = gen.rng_for(rec)
+    st, C = B.stabilizer, B.circuit
+    R = shard["R"]
+    ones = tot = 0
+    for t in range(3000):
+        S = st.zero_state(1)
+        out, _ = S.measure(B.PauliList(np.array([[1, 0]]), np.array([0])))
+        ones += int(out[0])
+        tot += 1
+    tl = stats.binom_two_sided(tot, ones) if tot <= 4000 else _normal_tail(tot, ones)
+    rec.batch("coin.samples", tot, 0, None)
+    rec.check("coin.fair", tl > stats.ALPHA, ["single coin", tot], True, observed={"ones": ones, "n": tot, "tail": tl})
+    cases = []
+    for N in (66, 72, 130):
+        xs = np.zeros((N, 2 * N), dtype=np.int64)
+        xs[np.arange(N), 2 * np.arange(N)] = 1
+        cases.append(("all-X on |0..0>, N=%d" % N, N, xs, "state"))
+    alt = np.array([[1, 0] if k % 2 == 0 else [0, 1] for k in range(80)])     # X,Z,X,Z,... on one qubit: every outcome is a fair coin
+    cases.append(("alternating X/Z x80 on one qubit", 1, alt, "state"))
+    cases.append(("measurement layer on all 70 qubits of |+..+>", 70, None, "layer"))
+    for name, N, obs, how in cases:
+        outs = []
+        for rep in range(R):
+            if how == "state":
+                S = st.zero_state(N)
+                ok, res = rec.attempt("coin.positions", [name, rep], lambda: S.measure(B.PauliList(obs.copy(), np.zeros(len(obs), dtype=np.int64))))
+                if not ok:
+                    break
+                outs.append(np.asarray(res[0]).astype(int))
+            else:
+                S = st.zero_state(N)
+                for q in range(N):
+                    C.H(q).forward(S)
+                ML = C.MeasureLayer(*range(N), N=N)
+                ok, _ = rec.attempt("coin.positions", [name, rep], lambda: ML.forward(S))
+                if not ok:
+                    break
+                outs.append(((1 - np.asarray(ML.result).astype(int)) // 2))
+        if len(outs) == R:
+            outs = np.stack(outs)
+            ones = outs.sum(0)
+            const = [int(k) for k in np.nonzero((ones == 0) | (ones == R))[0]]
+            rec.batch("coin.samples", outs.size, 0, None)
+            rec.check("coin.positions", not const, [name, R], True, expected="both outcomes at every position within %d runs" % R,
+                      observed={"constant_positions": const[:10], "n_constant": len(const), "positions": int(outs.shape[1])})
